@@ -104,6 +104,58 @@ def replay_text(pid, kind, fail, shrunk, note=""):
     return "\n".join(lines) + "\n"
 
 
+# ------------------------------------------------------------------ C07: the API surface is tied to the model
+# Public entry points that receive a vertex index from the caller, as covered by C07's theorems and by
+# vlib/props.py:invalid_calls.  The inventory is REGENERATED from /repo's headers on every run
+# (translator/ast_facts.py -> lean/BGVGen/EntryPoints.lean); an entry point that takes a vertex index and
+# is not listed here is one about which neither a theorem nor the correspondence says anything.
+C07_COVERED = {
+    "LabeledDirectedGraph": {"addEdge", "addReciprocalEdge", "removeEdge", "hasEdge", "getEdgeLabel", "setEdgeLabel",
+                             "removeVertexFromEdgeList", "getOutNeighbours", "getInDegree", "getOutDegree"},
+    "LabeledUndirectedGraph": {"addEdge", "removeEdge", "hasEdge", "getEdgeLabel", "setEdgeLabel",
+                               "removeVertexFromEdgeList", "getDegree", "getNeighbours"},
+    "DirectedMultigraph": {"addEdge", "addMultiedge", "addReciprocalEdge", "addReciprocalMultiedge", "getEdgeMultiplicity",
+                           "getInDegree", "getOutDegree", "hasEdge", "removeEdge", "removeMultiedge",
+                           "removeVertexFromEdgeList", "setEdgeMultiplicity"},
+    "UndirectedMultigraph": {"addEdge", "addMultiedge", "getDegree", "getEdgeMultiplicity", "hasEdge", "removeEdge",
+                             "removeMultiedge", "removeVertexFromEdgeList", "setEdgeMultiplicity"},
+    "DirectedWeightedGraph": {"addEdge", "addReciprocalEdge", "getEdgeWeight", "removeEdge", "removeVertexFromEdgeList",
+                              "setEdgeWeight"},
+    "UndirectedWeightedGraph": {"addEdge", "getEdgeWeight", "removeEdge", "removeVertexFromEdgeList", "setEdgeWeight"},
+    "": {"findVertexPredecessors", "findAllVertexPredecessors", "findGeodesics", "findAllGeodesics",
+         "findGeodesicsFromVertex", "findAllGeodesicsFromVertex", "findGeodesicsDijkstra",
+         "findPathToVertexFromPredecessors", "findMultiplePathsToVertexFromPredecessors",
+         "getSubgraph", "getSubgraphWithRemap"},
+}
+# not entry points for a caller's vertex index: the range check itself, iterator constructors (reached
+# only through begin()/end()), and the loader whose VertexIndex-typed parameter is a name->index callback
+C07_NOT_INDEX_INPUTS = {("LabeledDirectedGraph", "assertVertexInRange"), ("VertexIterator", "VertexIterator"),
+                        ("constEdgeIterator", "constEdgeIterator"), ("", "loadTextVertexLabeledEdgeList")}
+
+
+def c07_api_tie():
+    """returns (inventory size, list of uncovered entry points) from the regenerated table"""
+    import re as _re
+    with core.lean_lock():
+        special.run_translator()
+        ep = open(os.path.join(core.LEAN, "BGVGen", "EntryPoints.lean")).read()
+    members, free = ep.split("def freeEntryPoints")[0], ep.split("def freeEntryPoints")[1] if "def freeEntryPoints" in ep else ""
+    inv, unc = 0, []
+    for (c, m_, n) in _re.findall(r'\("([^"]*)", "([^"]+)", (\d+)\)', members):
+        if int(n) == 0 or (c, m_) in C07_NOT_INDEX_INPUTS:
+            continue
+        inv += 1
+        if m_ not in C07_COVERED.get(c, set()):
+            unc.append(f"{c}::{m_} ({n} vertex-index parameter(s))")
+    for (h, m_, n) in _re.findall(r'\("([^"]*)", "([^"]+)", (\d+)\)', free):
+        if int(n) == 0 or ("", m_) in C07_NOT_INDEX_INPUTS:
+            continue
+        inv += 1
+        if m_ not in C07_COVERED[""]:
+            unc.append(f"{m_} in {h} ({n} vertex-index parameter(s))")
+    return inv, sorted(set(unc))
+
+
 def main():
     ap = argparse.ArgumentParser()
     ap.add_argument("pid")
@@ -139,6 +191,21 @@ def main():
         p = core.write_replay(pid, "proof-obligations.txt",
                               f"# property {pid}: proof obligations that no longer check\n" + "\n".join(proof_problems) + "\n")
         violation(p, nofail=True)
+
+    api = None
+    if pid == "C07" and special is not None and not args.replay:
+        try:
+            api = c07_api_tie()
+            if api[1]:
+                p = core.write_replay(pid, "entry-points.txt",
+                                      "# property C07 quantifies over every public entry point that takes a vertex index.\n"
+                                      "# These entry points of /repo's headers (regenerated inventory, lean/BGVGen/EntryPoints.lean)\n"
+                                      "# are covered neither by a C07 theorem nor by the rejected-call workload, so the property is\n"
+                                      "# no longer shown to hold for them:\n" + "\n".join(api[1]) + "\n")
+                violation(p, nofail=True)
+        except Exception as e:   # the translator failing is reported, not swallowed
+            p = core.write_replay(pid, "entry-points.txt", f"# the entry-point inventory could not be regenerated from /repo: {e}\n")
+            violation(p, nofail=True)
 
     if special is not None and pid in special.HANDLERS:
         # properties with their own machinery (C17, C18, C20, …)
@@ -225,6 +292,9 @@ def main():
         "correspondence_failures": len(failures),
         "theorems": thms,
     })
+    if api is not None:
+        cov["entry_points_taking_a_vertex_index"] = api[0]
+        cov["entry_points_not_covered"] = api[1]
     if not cov["samples"]:
         cov["samples"] = [["<no history was run>"]]
     core.write_evidence(pid, tier, seed, level, cov, time.time() - t0, violations,
